@@ -202,6 +202,127 @@ theorem rloop_take_prefix (ps : Nat) (crc : Crc) :
       rw [List.take_left' rfl] at this
       exact List.cons_prefix_cons.mpr ⟨rfl, this⟩
 
+/-! ### Truncation followed by zero padding (the `segmentBufReader` of `Head.Init`) -/
+
+/-- Reading nothing but zeros never returns a record. -/
+theorem rloop_zeros_nil (ps : Nat) (crc : Crc) : ∀ (k : Nat) (st : RState), (rloop ps crc st (zeros k)).1 = [] := by
+  intro k
+  induction k using Nat.strongRecOn with
+  | _ k ih =>
+    intro st
+    cases k with
+    | zero => simp [zeros, rloop_nil]
+    | succ k =>
+      have hz : (0 : UInt8) &&& recTypeMask = recPageTerm := by decide
+      have hs : zeros (k + 1) = (0 : UInt8) :: zeros k := by simp [zeros, List.replicate_succ]
+      cases hr : rstep ps crc st (zeros (k + 1)) with
+      | done status => rw [rloop_done hr]
+      | emit rec st' rest =>
+        exfalso
+        rw [hs] at hr
+        simp only [rstep, hz, if_true] at hr
+        split at hr <;> try split at hr
+        all_goals (try split at hr)
+        all_goals (try split at hr)
+        all_goals simp at hr
+      | cont st' rest =>
+        have hloc := rstep_local ps crc st (zeros (k + 1))
+        unfold StepLocal at hloc
+        rw [hr] at hloc
+        obtain ⟨c, hc, hcs, _⟩ := hloc
+        have hclen : 0 < c.length := List.length_pos_iff.mpr hc
+        have hlen : (zeros (k + 1)).length = c.length + rest.length := by rw [hcs]; simp
+        have hrest : rest = zeros rest.length := by
+          have : rest = (zeros (k + 1)).drop c.length := by rw [hcs]; simp
+          rw [this]; simp [zeros]
+        have hl : rest.length < (zeros (k + 1)).length := by omega
+        rw [rloop_of_cont hr hl, hrest]
+        exact ih rest.length (by simp [zeros] at hlen; omega) st'
+
+/-- The reader of `Head.Init` on a file cut at `n` bytes and zero padded: a prefix of what the whole stream
+    gives, followed by at most one extra record (the fragment straddling the cut, completed by zeros). -/
+theorem rloop_take_pad (ps : Nat) (crc : Crc) :
+    ∀ (m : Nat) (s : Bytes), s.length ≤ m → ∀ (st : RState) (n k : Nat), n ≤ s.length →
+      ∃ pre extra, (rloop ps crc st (s.take n ++ zeros k)).1 = pre ++ extra ∧
+        pre <+: (rloop ps crc st s).1 ∧ extra.length ≤ 1 := by
+  intro m
+  induction m with
+  | zero =>
+    intro s hs st n k hn
+    have : s = [] := List.eq_nil_of_length_eq_zero (by omega)
+    subst this
+    exact ⟨[], [], by simp [rloop_zeros_nil], List.nil_prefix, by simp⟩
+  | succ m ih =>
+    intro s hs st n k hn
+    have hloc := rstep_local ps crc st (s.take n ++ zeros k)
+    unfold StepLocal at hloc
+    have htl : (s.take n).length = n := by simp [List.length_take]; omega
+    cases hr : rstep ps crc st (s.take n ++ zeros k) with
+    | done status => exact ⟨[], [], by rw [rloop_done hr]; rfl, List.nil_prefix, by simp⟩
+    | cont st' rest =>
+      rw [hr] at hloc
+      obtain ⟨c, hc, hcs, hX⟩ := hloc
+      have hclen : 0 < c.length := List.length_pos_iff.mpr hc
+      have hl1 : rest.length < (s.take n ++ zeros k).length := by rw [hcs]; simp; omega
+      rw [rloop_of_cont hr hl1]
+      by_cases hcn : c.length ≤ n
+      · -- the step lies inside the real bytes: the same step on the whole stream
+        have hc1 : c = s.take c.length := by
+          have h1 : (c ++ rest).take c.length = c := List.take_left' rfl
+          rw [← hcs, List.take_append_of_le_length (by omega), List.take_take, Nat.min_eq_left hcn] at h1
+          exact h1.symm
+        have hcd : c ++ s.drop c.length = s := by
+          have := List.take_append_drop c.length s
+          rwa [← hc1] at this
+        have hrest : rest = (s.drop c.length).take (n - c.length) ++ zeros k := by
+          have := congrArg (List.drop c.length) hcs
+          rw [List.drop_left' rfl, List.drop_append_of_le_length (by omega), List.drop_take] at this
+          exact this.symm
+        have hfull : rstep ps crc st s = .cont st' (s.drop c.length) := by
+          have := hX (s.drop c.length)
+          rwa [hcd] at this
+        have hl2 : (s.drop c.length).length < s.length := by simp; omega
+        rw [rloop_of_cont hfull hl2, hrest]
+        exact ih (s.drop c.length) (by simp; omega) st' (n - c.length) k (by simp; omega)
+      · -- the step straddles the cut: only zeros remain
+        have hrest : rest = zeros rest.length := by
+          have h1 : (c ++ rest).drop c.length = rest := List.drop_left' rfl
+          obtain ⟨j, hj⟩ : ∃ j, c.length = (s.take n).length + j := ⟨c.length - n, by omega⟩
+          rw [← hcs, hj, List.drop_append] at h1
+          rw [← h1]; simp [zeros]
+        exact ⟨[], [], by rw [hrest, rloop_zeros_nil]; rfl, List.nil_prefix, by simp⟩
+    | emit rec st' rest =>
+      rw [hr] at hloc
+      obtain ⟨c, hc, hcs, hX⟩ := hloc
+      have hclen : 0 < c.length := List.length_pos_iff.mpr hc
+      have hl1 : rest.length < (s.take n ++ zeros k).length := by rw [hcs]; simp; omega
+      rw [rloop_of_emit hr hl1]
+      by_cases hcn : c.length ≤ n
+      · have hc1 : c = s.take c.length := by
+          have h1 : (c ++ rest).take c.length = c := List.take_left' rfl
+          rw [← hcs, List.take_append_of_le_length (by omega), List.take_take, Nat.min_eq_left hcn] at h1
+          exact h1.symm
+        have hcd : c ++ s.drop c.length = s := by
+          have := List.take_append_drop c.length s
+          rwa [← hc1] at this
+        have hrest : rest = (s.drop c.length).take (n - c.length) ++ zeros k := by
+          have := congrArg (List.drop c.length) hcs
+          rw [List.drop_left' rfl, List.drop_append_of_le_length (by omega), List.drop_take] at this
+          exact this.symm
+        have hfull : rstep ps crc st s = .emit rec st' (s.drop c.length) := by
+          have := hX (s.drop c.length)
+          rwa [hcd] at this
+        have hl2 : (s.drop c.length).length < s.length := by simp; omega
+        rw [rloop_of_emit hfull hl2, hrest]
+        obtain ⟨pre, extra, e, hp, hx⟩ := ih (s.drop c.length) (by simp; omega) st' (n - c.length) k (by simp; omega)
+        exact ⟨rec :: pre, extra, by simp [e], List.cons_prefix_cons.mpr ⟨rfl, hp⟩, hx⟩
+      · have hrest : rest = zeros rest.length := by
+          have h1 : (c ++ rest).drop c.length = rest := List.drop_left' rfl
+          obtain ⟨j, hj⟩ : ∃ j, c.length = (s.take n).length + j := ⟨c.length - n, by omega⟩
+          rw [← hcs, hj, List.drop_append] at h1
+          rw [← h1]; simp [zeros]
+        exact ⟨[], [rec], by rw [hrest, rloop_zeros_nil]; rfl, List.nil_prefix, by simp⟩
+
 /-! ### The reader loop with offsets -/
 
 theorem rloopE_fst (ps : Nat) (crc : Crc) :
